@@ -132,7 +132,7 @@ func checkC07(c *Ctx, w *World) {
 			continue
 		}
 		want := cs.And(A("enabled"), clientDeadline, cs.Not(A("startedBeforeLastResp")), cs.Not(A("tooFew")), A("windowPassed"))
-		eq, wit := cs.Equiv(cs.OnlyNamed(cs.Reach(s.Instr)), want)
+		eq, wit := cs.EquivStrict(cs.Reach(s.Instr), want)
 		c.check(eq, "C07.trigger", "refresh call: condition", p.ipos(s.Instr), "refresh ⇔ enabled ∧ client-side deadline error ∧ started after last response ∧ enough counted calls ∧ window passed (9 atoms, exact)", "refresh is not triggered exactly by the rule: "+wit)
 		c.check(s.Call.Args[1] == ssa.Value(slot), "C07.trigger", "refresh call: slot", p.ipos(s.Instr), "refreshes the slot the call ran on", "refreshes a different slot")
 	}
@@ -177,7 +177,7 @@ func checkC07(c *Ctx, w *World) {
 		if s.Fn != du {
 			continue
 		}
-		eq, wit := cs.Equiv(cs.OnlyNamed(cs.Reach(s.Instr)), cs.And(A("enabled"), cs.Not(clientDeadline)))
+		eq, wit := cs.EquivStrict(cs.Reach(s.Instr), cs.And(A("enabled"), cs.Not(clientDeadline)))
 		c.check(eq && s.Call.Args[0] == ssa.Value(slot), "C07.response", "gotResp call: condition", p.ipos(s.Instr), "any completion that is not a client-side deadline error counts as a response (exact complement)", "responses are not recognised exactly as the complement of the client-deadline condition: "+wit)
 	}
 	// gotResp resets exactly {lastResp←now, deCalls←0, refreshCnt←0}
@@ -221,7 +221,7 @@ func checkC07(c *Ctx, w *World) {
 		if s.Fn != du {
 			continue
 		}
-		eq, wit := cs.Equiv(cs.OnlyNamed(cs.Reach(s.Instr)), cs.And(A("enabled"), clientDeadline, cs.Not(A("startedBeforeLastResp"))))
+		eq, wit := cs.EquivStrict(cs.Reach(s.Instr), cs.And(A("enabled"), clientDeadline, cs.Not(A("startedBeforeLastResp"))))
 		c.check(eq && !inLoop(s.Instr), "C07.count", "deCallsInc call: condition", p.ipos(s.Instr), "counted once ⇔ client-side deadline error of a call started not before the last response", "deadline calls are not counted exactly once under the rule: "+wit)
 	}
 	pl.whoMayWrite("C07.count", "subConnRef.deCalls", map[string][]string{fname(inc): {"atomic"}, fname(gotResp): {"atomic"}, fname(pl.uscs): {"atomic"}})
